@@ -170,6 +170,21 @@ def ru_term(T, c):
 def u8_term(T, c):
     return '(U8C %s %s)' % (T.hx(c['s']), B(c['valid']))
 
+def js_term(T, c):
+    return '(JsC %s %s %s %s)' % (T.hx(c['s']), T.hx(c['enc']), T.hx(c['lit']), ('(Some %s)' % T.hx(c['dec'])) if c['dec_ok'] else 'None')
+def b64_term(T, c):
+    return '(B64C %s %s %s %s)' % (T.hx(c['b']), T.hx(c['enc']), T.hx(c['in']), ('(Some %s)' % T.hx(c['dec'])) if c['dec_ok'] else 'None')
+def jw_term(T, c):
+    wrap = '(Some (%s,%s))' % (T.hx(c['dest']), T.msg(c['m'])) if c.get('m') else 'None'
+    frames = ';'.join('(%s,%s)' % (T.hx(f['text']), 'None' if f['members'] is None else
+                                   '(Some [%s])' % ';'.join('(%s,%s)' % (T.hx(k), T.hx(v)) for k, v in f['members'])) for f in c['frames'])
+    return '(JwC %s %s %s [%s] %s)' % (wrap, B(c['valid']), T.obytes(c['p']), frames, unw_res(T, c['got']))
+
+def ctx_term(T, c):
+    return '(CtxC %d%%N %d%%N %d%%N %d%%N)' % (c['in'], c['delivered'], c['wrapped'], c['unwrapped'])
+def cc_term(T, c):
+    return '(CcC %s %d %s)' % (cq_term(T, c['c']), c['kind_u'], B(c['nofb_u']))
+
 FAMILIES = {
     # key: (case type, term builder, [(result name, Gallina function, role)], chunk size, what)
     'eq':  ('eq_case', eq_term, [('mis', 'eq_mismatches', 'm'), ('vio', 'eq_violations', 'v'), ('pin', 'eq_pinned_diffs', 'i')], 400,
@@ -187,6 +202,12 @@ FAMILIES = {
     'nfm': ('nfm_case', nfm_term, [('mis', 'nfm_mismatches', 'm')], 200, 'NameFromMessage on arbitrary messages'),
     'rp':  ('rp_case', rp_term, [('mis', 'rp_mismatches', 'm'), ('vio', 'rp_violations', 'v')], 250, 'BackendPubsubJSONMarshaler MarshalReply then UnmarshalReply'),
     'ru':  ('ru_case', ru_term, [('mis', 'ru_mismatches', 'm')], 200, 'UnmarshalReply on arbitrary messages'),
+    'js':  ('js_case', js_term, [('mis', 'js_mismatches', 'm')], 400, 'Gallina enc_str / dec_str against json.Marshal(string) / json.Unmarshal(literal, &string)'),
+    'b64': ('b64_case', b64_term, [('mis', 'b64_mismatches', 'm')], 400, 'Gallina b64enc / b64dec against base64.StdEncoding'),
+    'jw':  ('jw_case', jw_term, [('mis', 'jw_mismatches', 'm'), ('vio', 'jw_violations', 'v')], 100,
+            'envelope text: Gallina jenc_env = bytes written by wrapMessageInEnvelope; Gallina jdec_env (object split given) = unwrapMessageFromEnvelope'),
+    'ctx': ('ctx_case', ctx_term, [('mis', 'ctx_mismatches', 'm')], 400, 'message context: wrapped message gets the original context, unwrapped message the envelope message context'),
+    'cc':  ('cc_case', cc_term, [('mis', 'cc_mismatches', 'm')], 250, 'Marshal with one of ProtoMarshaler / ProtobufMarshaler(fallback on/off), Unmarshal with another'),
     'u8':  ('u8_case', u8_term, [('mis', 'u8_mismatches', 'm')], 2000, 'utf8_valid (Gallina) against utf8.Valid (Go): boundary sweep + mutated strings'),
 }
 
@@ -212,9 +233,10 @@ def signature(fam, c):
     if fam == 'cq':
         return 'C16/cqrs/%s/%s' % (['json', 'proto', 'gogo'][c['kind']], c.get('desc', '?').split(':')[0])
     return 'C16/' + {'st': 'copy-set-script', 'env': 'envelope-roundtrip', 'unw': 'unwrap-accepts-empty-destination', 'pub': 'publisher-roundtrip',
-                     'rp': 'reply-roundtrip'}.get(fam, fam)
+                     'rp': 'reply-roundtrip', 'jw': 'envelope-roundtrip'}.get(fam, fam)
 
 WHAT = {
+    'jw': 'wrap/unwrap of the forwarder envelope is not the identity (envelope-text family) / empty destination accepted',
     'eq': 'Message.Equals disagrees with "same UUID, same payload bytes, same metadata key/value set"',
     'st': 'object script rejected by trace_ok (Copy must equal the original, be unsettled and own its metadata; Set changes one map only)',
     'env': 'wrap/unwrap of the forwarder envelope is not the identity on (destination, UUID, payload, metadata) / empty destination accepted',
@@ -290,7 +312,7 @@ def run_once(ctx, res, seed, scale, big, tag):
                 if c.get('msg'): res.nontrivial.add(('cq', c['kind'], c['nofb'], c['ts'], c['v'], c['gen'], c['cfguuid']))
             elif fam == 'rp':
                 if c.get('msg'): res.nontrivial.add(('rp', c['type'], c['res'], c['errtext']))
-            elif fam in ('unw', 'ru', 'nfm', 'u8'):
+            elif fam in ('unw', 'ru', 'nfm', 'u8', 'js', 'b64', 'jw', 'ctx', 'cc'):
                 res.nontrivial.add((fam, json.dumps(c, sort_keys=True)))
     if not res.samples:
         res.sample(dict(family='eq', case=unhex_deep(data['eq'][0])))
